@@ -291,7 +291,8 @@ class GroupBy:
         # Exits as soon as it detects non-monotonicity and uses empty arrays to avoid wasted memory
         # object arrays (e.g. python strings) cannot be passed to compiled code
         is_typed = pandas_type_from_array(group_key).kind in "biufmM" or (
-            isinstance(group_key, np.ndarray) and group_key.dtype.kind in "US"
+            # (byte strings have no compiled comparison: they skip the sorted-prefix probe)
+            isinstance(group_key, np.ndarray) and group_key.dtype.kind == "U"
         )
         if is_typed:
             cutoff, mono_codes, mono_uniques = monotonic_factorization(group_key)
